@@ -22,7 +22,7 @@ TOOLS = ["parse_transactions", "calculate_report", "explain_matching", "get_fx_r
 
 
 def plan(tier, seed):
-    k = 24 if tier == "quick" else 500
+    k = 32 if tier == "quick" else 500
     shards = [{"kind": "sessions", "seed": seed, "shard": i, "n": 3} for i in range(k)]
     shards += [{"kind": "embedded", "seed": seed, "shard": i, "n": 3} for i in range(8 if tier == "quick" else 120)]
     shards += [{"kind": "envelope", "seed": seed, "shard": i, "n": 1} for i in range(2 if tier == "quick" else 20)]
